@@ -9,8 +9,10 @@ EXPLANATION = (
     "Decided (structural, all paths): (1) MutableChecker._make_checker_results: abstract interpretation over "
     "(healthy, |recoverable| in {0,1,many}, unrecoverable empty?, shares<N?) - CheckResults(healthy=..) is reached with "
     "healthy True only when no unrecoverable version, exactly one recoverable version and not (good shares < N) are all "
-    "established on the path, and with healthy False never when all three are established; good/expected are "
-    "shares_available()[best][0]/[2] = (number of distinct shnums, N of the verinfo); (2) _got_mapupdate_results leaves "
+    "established on the path, and with healthy False only on paths on which a branch fact rules that case out (an unrecoverable "
+    "version / a number of recoverable versions other than 1 / good shares < N); the summary text says 'Healthy' only on the "
+    "verdict's true branch; good/expected are "
+    "shares_available()[best][0]/[2] = (number of distinct shnums - a set that share numbers are added to, N of the verinfo); (2) _got_mapupdate_results leaves "
     "need_repair False only under the same three facts; check-and-repair never passes force; (3) "
     "Repairer._got_full_servermap reaches download_version / node.upload only with best version non-empty, "
     "(not unrecoverable_newer_versions() or force), (not needs_merge() or force); force travels "
@@ -18,8 +20,12 @@ EXPLANATION = (
     "smap.best_recoverable_version()) wrapped in MutableData and handed to node.upload with the same servermap; "
     "best_recoverable_version is the maximum of the recoverable versions; (5) Publish.publish adds every "
     "get_bad_shares() key to the goal and writes it with the recorded old checkstring; mark_bad_share records the "
-    "checkstring and drops the share from the known shares; (6) MutableChecker.check builds the verdict after the "
-    "verify pass from the servermap the verifier marked bad shares in; (7) ServerMap classifies a version by comparing "
+    "checkstring and drops the share from the known shares; update_goal() (homes for shares that have none, i.e. the missing "
+    "shares a repair restores) runs on the built goal before the writers are made from it; (6) MutableChecker.check builds "
+    "the verdict after the verify pass from the servermap the verifier marked bad shares in; the verify pass is registered "
+    "unless the verify flag was found false, is skipped only when there is no best version, returns the Deferred of the "
+    "verifier's download (so the verdict waits for it) and hands the bad shares to _process_bad_shares, which asks for "
+    "repair whenever there are any; (7) ServerMap classifies a version by comparing "
     "the number of DISTINCT share numbers of its shares with k (field 5 of the verinfo): recoverable_versions() holds "
     "exactly the versions with k <= distinct, unrecoverable_versions() exactly those with distinct < k, "
     "unrecoverable_newer_versions() keeps every version with distinct < k whose seqnum exceeds the highest seqnum of the "
@@ -27,11 +33,13 @@ EXPLANATION = (
     "needs_merge() is True whenever two recoverable versions share a seqnum, and make_versionmap() puts the share number "
     "first in the per-version share tuples that are counted; (8) the servermap the repairer's refusal gates and the "
     "republish run on is always the result of the repairer's own ServermapUpdater(..).update() in a mode for which "
-    "ServermapUpdater.update queries the full permuted server list (MODE_REPAIR / MODE_CHECK): _got_full_servermap has "
+    "ServermapUpdater.update queries the full permuted server list on every path (MODE_REPAIR / MODE_CHECK; the mode tests "
+    "are interpreted on both edges over the MODE_* constants of mutable.common): _got_full_servermap has "
     "no other caller or reference, nothing between update() and it replaces the map, MutableFileNode.repair goes "
     "through Repairer.start, and MutableChecker.check maps in an all-servers mode as well - for MutableChecker itself and "
     "for every subclass that inherits check() (the mode expression is folded per class). "
-    "Undecided: post-repair share counts / placement, an unrecoverable version with the same seqnum as the best one, "
+    "Undecided: post-repair share counts / placement beyond update_goal() being run (what update_goal chooses, whether the "
+    "writes succeed, that get_results reports success unconditionally), an unrecoverable version with the same seqnum as the best one, "
     "the completion policy of the mapupdate after the initial queries were sent (that every queried server is waited for). "
     "FINDING (C14.8, construct allmydata.mutable.checker:MutableCheckAndRepairer): SERVERMAP_MODE = MODE_WRITE is a bounded "
     "search (N+k initial servers, stops after k empty servers past the last share), so check_and_repair() reports 'Healthy' "
@@ -339,12 +347,21 @@ def _strip_wrappers(e, names=("list", "sorted", "set", "tuple", "frozenset")):
 
 
 def _all_server_modes(idx, r):
-    """The mode constants for which ServermapUpdater.update sends its initial queries to the full permuted server list
-    (None = for every mode)."""
+    """The mode constants for which ServermapUpdater.update sends its initial queries to the full permuted server list on
+    EVERY path.  The mode tests are interpreted over the finite universe of the MODE_* constants of mutable.common, on both
+    edges (so ``not in`` / a negated test / an ``else`` branch are followed, and a test that is not understood keeps all modes)."""
     folder = get_folder(idx)
     up = idx.func("mutable.servermap:ServermapUpdater.update")
     cfg = up.cfg()
     un = FlowNorm(up)
+    common = idx.module("allmydata.mutable.common")
+    universe = set()
+    for nm in sorted(common.assigns):
+        if nm.startswith("MODE_"):
+            universe.add(folder.module_const("mutable.common", nm))
+    universe = frozenset(universe)
+    if len(universe) < 2:
+        raise AnchorVanished("the MODE_* constants of allmydata.mutable.common")
     sends = [n for n in cfg.find(has_call("_send_initial_requests"))]
     qs = set()
     for n in sends:
@@ -357,18 +374,21 @@ def _all_server_modes(idx, r):
     full_re = re.compile(r"^(list\()*self\._storage_broker\.get_servers_for_psi\(self\._storage_index\)\)*$")
 
     def mode_test(n):
+        """(set S, True when the test says `mode in S` / False when it says `mode not in S`) for the atomic test n."""
         t = n.ast
         if not (isinstance(t, ast.Compare) and len(t.ops) == 1):
             return None
         a, b = t.left, t.comparators[0]
+        op = t.ops[0]
         try:
-            if isinstance(t.ops[0], ast.In) and un.norm(n, a) == "self.mode" and isinstance(b, (ast.Tuple, ast.List, ast.Set)):
-                return frozenset(folder.fold(e, up.module, up.cls) for e in b.elts)
-            if isinstance(t.ops[0], ast.Eq):
+            if isinstance(op, (ast.In, ast.NotIn)) and un.norm(n, a) == "self.mode" and isinstance(b, (ast.Tuple, ast.List, ast.Set)):
+                return frozenset(folder.fold(e, up.module, up.cls) for e in b.elts), isinstance(op, ast.In)
+            if isinstance(op, (ast.Eq, ast.NotEq, ast.Is, ast.IsNot)):
+                pos = isinstance(op, (ast.Eq, ast.Is))
                 if un.norm(n, a) == "self.mode":
-                    return frozenset([folder.fold(b, up.module, up.cls)])
+                    return frozenset([folder.fold(b, up.module, up.cls)]), pos
                 if un.norm(n, b) == "self.mode":
-                    return frozenset([folder.fold(a, up.module, up.cls)])
+                    return frozenset([folder.fold(a, up.module, up.cls)]), pos
         except NotConstant:
             return None
         return None
@@ -377,30 +397,31 @@ def _all_server_modes(idx, r):
         modes, qd = st
         if lab == "exc":
             return None
-        if n.kind == "test" and isinstance(lab, tuple) and lab[0] == "T":
+        if n.kind == "test" and isinstance(lab, tuple) and lab[0] in ("T", "F"):
             m = mode_test(n)
             if m is not None:
-                modes = m if modes is None else (modes & m)
+                S, pos = m
+                modes = (modes & S) if (pos == (lab[0] == "T")) else (modes - S)
                 if not modes:
                     return None
+        if n.kind in ("stmt", "iter", "with") and "self.mode" in node_stores(n):
+            modes = universe
         if n.kind in ("stmt", "iter", "with") and q in node_stores(n):
             v = assign_value(n, q) if n.kind == "stmt" else None
             qd = "full" if (v is not None and full_re.match(un.norm(n, v))) else "other"
         return (modes, qd)
-    visited, _parent = explore(cfg, (None, "?"), tr)
+    visited, _parent = explore(cfg, (universe, "?"), tr)
     r.count(len(visited))
-    res = set()
+    full, other = set(), set()
     for (nid, (modes, qd)) in visited:
-        if cfg.nodes[nid] in sends and qd == "full":
-            if modes is None:
-                return None
-            res |= modes
+        if cfg.nodes[nid] in sends:
+            (full if qd == "full" else other).update(modes)
     # the attribute that is tested is the constructor argument
     ini = idx.func("mutable.servermap:ServermapUpdater.__init__")
     vals = [assign_value(n, "self.mode") for n in ini.cfg().nodes if "self.mode" in node_stores(n)]
     if not vals or not all(isinstance(v, ast.Name) and v.id == "mode" for v in vals) or "mode" not in ini.params:
         raise AnchorVanished("self.mode = mode in ServermapUpdater.__init__")
-    return res
+    return full - other
 
 
 def run(ctx: Context):
@@ -489,11 +510,28 @@ def run(ctx: Context):
                 if key not in reported:
                     reported.add(key)
                     r.violation(fn, fn.loc(n.ast), "file is reported healthy although %s (path: %s)" % ("; ".join(why), w.brief()), w)
-            elif healthy == "F" and good(rec, unrec, sn):
+            elif healthy == "F" and 1 in rec and 0 in unrec and sn != "lt":
+                # "exactly when": every way to the verdict False has to pass a branch fact that rules the good case out
+                # (an unrecoverable version exists / the number of recoverable versions is not 1 / good shares < N)
                 if "F" not in reported:
                     reported.add("F")
-                    r.violation(fn, fn.loc(n.ast), "file is reported unhealthy although there is a single recoverable version with N "
-                                "distinct shares and no other version (path: %s)" % w.brief(), w)
+                    r.violation(fn, fn.loc(n.ast), "file is reported unhealthy on a path on which nothing rules out a single recoverable "
+                                "version with N distinct shares and no other version (path: %s)" % w.brief(), w)
+        # the one-line summary handed to CheckResults says "Healthy" only on the verdict's true branch
+        for n in tn:
+            c = [c for c in node_calls(n) if call_tail(c) == "CheckResults"][0]
+            sk = kwarg(c, "summary")
+            if not isinstance(sk, ast.Name):
+                continue
+            for m in cfg.nodes:
+                v = assign_value(m, sk.id) if m.kind == "stmt" else None
+                if isinstance(v, ast.Constant) and isinstance(v.value, str) and v.value.strip().lower().startswith("healthy"):
+                    r.site(fn, v, "summary says healthy")
+                    for (t, w) in find_path_avoiding(cfg, lambda x, _m=m: x is _m,
+                                                     gate_edge=lambda x, lab: _fact(fnorm, x, lab)[:2] == ("truth", hv),
+                                                     kill=stores(hv))[:1]:
+                        r.violation(fn, fn.loc(m.ast), "the summary of the check results is set to %r without the verdict %s having been "
+                                    "found true (path: %s)" % (v.value, hv, w.brief()), w)
         # the counters that are compared
         cs = idx.func(CHK + "._count_shares")
         cp = first_positional_params(cs)
@@ -536,6 +574,8 @@ def run(ctx: Context):
                         adds = [c for c in calls_in_func(sa, "add") if attr_path(c.func.value) == x.id]
                         for c in adds:
                             ok0 = ok0 and len(c.args) == 1 and isinstance(c.args[0], ast.Name) and c.args[0].id == "shnum"
+                        if any(isinstance(d, ast.Call) and call_name(d) == "set" and not d.args for d in ds) and not adds:
+                            ok0 = False      # an empty set that nothing is added to: every version would count 0 good shares
                     else:
                         ok0 = isinstance(x, (ast.SetComp,)) or (isinstance(x, ast.Call) and call_name(x) == "set")
                 r.require(ok0, sa, sa.loc(a), "good-share count %s is not the number of distinct share numbers" % src(sa, e0))
@@ -864,6 +904,14 @@ def run(ctx: Context):
         if not (isinstance(wt, ast.Tuple) and len(wt.elts) == 2 and all(isinstance(e, ast.Name) for e in wt.elts)):
             raise AnchorVanished("writer loop target")
         wkey = "(%s, %s,)" % (wt.elts[0].id, wt.elts[1].id)
+        # homes for the shares that have none (the missing ones a repair is to restore) are chosen by update_goal(): it runs on
+        # the goal that was just built, before the writers are made from the goal
+        r.site(fn, wheads[0].ast, "update_goal before the writers")
+        for (t, w) in find_path_avoiding(cfg, lambda x: x is wheads[0], gate_node=lambda x: any(
+                call_name(c) == "self.update_goal" for c in node_calls(x)), kill=stores("self.goal"), skip_exc_edges=True)[:1]:
+            r.violation(fn, fn.loc(wheads[0].ast), "the writers are made from self.goal without update_goal() having run on it: shares "
+                        "that have no home yet (missing shares) are not placed, a 'successful' repair leaves fewer than N distinct "
+                        "shares (path: %s)" % w.brief(), w)
         found = 0
         for n in cfg.find(has_call("set_checkstring")):
             for c in calls_at(n, "set_checkstring"):
@@ -983,6 +1031,65 @@ def run(ctx: Context):
             r.require(isinstance(vf, ast.Constant) and vf.value is True, va, va.loc(c), "Retrieve is not run in verify mode")
         if not k:
             raise AnchorVanished("Retrieve(...) in _verify_all_shares")
+        # a check that was asked to verify does verify: the verify pass is registered on every path except where the caller's
+        # `verify` flag was found false
+        ccfg = fn.cfg()
+        cnorm = FlowNorm(fn)
+        vreg_calls = [x.call for x, nme in zip(regs, names) if nme == "self._verify_all_shares"]
+        vreg_nodes = [m for m in ccfg.nodes if m.kind == "stmt" and any(c is vc for c in node_calls(m) for vc in vreg_calls)]
+        if not vreg_nodes:
+            raise AnchorVanished("statement that registers _verify_all_shares in MutableChecker.check")
+        vflag = "verify" if "verify" in fn.params else None
+        for (t, w) in find_path_avoiding(ccfg, lambda x: x.kind == "exit", gate_node=lambda x: x in vreg_nodes,
+                                         gate_edge=lambda x, lab: vflag is not None and _fact(cnorm, x, lab)[:2] == ("false", vflag),
+                                         skip_exc_edges=True)[:1]:
+            r.violation(fn, fn.loc(vreg_nodes[0].ast), "MutableChecker.check can finish without having registered the verify pass although "
+                        "its verify flag was not found false: corrupt shares stay undetected by a verifying check (path: %s)" % w.brief(), w)
+        # the verify pass: skipped only when there is no best version; otherwise the chain waits for the verifier's download
+        # (its Deferred is returned), whose bad shares reach _process_bad_shares
+        vcfg = va.cfg()
+        vnorm = FlowNorm(va)
+        dl_nodes = [m for m in vcfg.nodes if m.kind == "stmt" and any(
+            isinstance(c.func, ast.Attribute) and c.func.attr == "download" and isinstance(
+                _res(va, vnorm, m, c.func.value), ast.Call) and call_tail(_res(va, vnorm, m, c.func.value)) == "Retrieve"
+            for c in node_calls(m))]
+        if not dl_nodes:
+            raise AnchorVanished("Retrieve(..).download() in _verify_all_shares")
+        r.site(va, dl_nodes[0].ast, "verifier download")
+
+        def no_best(x, lab):
+            op, l, rr = _fact(vnorm, x, lab)
+            return (op == "false" and l == "self.best_version") or (op == "is" and {l, rr} == {"None", "self.best_version"})
+        for (t, w) in find_path_avoiding(vcfg, lambda x: x.kind == "exit", gate_node=lambda x: x in dl_nodes, gate_edge=no_best,
+                                         skip_exc_edges=True)[:1]:
+            r.violation(va, va.loc(), "_verify_all_shares can return without running the verifier although a best version exists "
+                        "(path: %s)" % w.brief(), w)
+
+        def returns_download(m):
+            if not (is_return(m) and m.ast.value is not None):
+                return False
+            v = _unchain_regs(_res(va, vnorm, m, m.ast.value))
+            return isinstance(v, ast.Call) and isinstance(v.func, ast.Attribute) and v.func.attr == "download"
+        for dn_ in dl_nodes:
+            if returns_download(dn_):
+                continue
+            for (t, w) in find_path_from_to_avoiding(vcfg, lambda x, _d=dn_: x is _d, returns_download)[:1]:
+                r.violation(va, va.loc(dn_.ast), "_verify_all_shares does not return the Deferred of the verifier's download: the verdict is "
+                            "computed before the verifier has marked the bad shares (path: %s)" % w.brief(), w)
+        pb = [x for x in registrations(va) if x.kind in ("cb", "both") and attr_path(x.target) == "self._process_bad_shares"]
+        r.require(bool(pb), va, va.loc(dl_nodes[0].ast), "the verifier's list of bad shares is not handed to _process_bad_shares: a corrupt share "
+                  "found by the verifier would not make check-and-repair repair the file")
+        pbf = idx.func(CHK + "._process_bad_shares")
+        pbp = first_positional_params(pbf)
+        pbn = FlowNorm(pbf)
+        pcfg = pbf.cfg()
+        r.site(pbf, None, "bad shares ask for repair")
+        for (t, w) in find_path_avoiding(pcfg, lambda x: x.kind == "exit",
+                                         gate_node=lambda x: x.kind == "stmt" and _const_assign(x, "self.need_repair") == (True, True),
+                                         gate_edge=lambda x, lab: bool(pbp) and _fact(pbn, x, lab)[:2] == ("false", pbp[0]),
+                                         skip_exc_edges=True)[:1]:
+            r.violation(pbf, pbf.loc(), "_process_bad_shares can return without asking for a repair although the verifier reported bad "
+                        "shares (path: %s)" % w.brief(), w)
         mu = idx.func(CHK + "._got_mapupdate_results")
         mp = first_positional_params(mu)[0]
         for n in mu.cfg().find(is_return):
